@@ -181,6 +181,9 @@ pub struct Placement {
     pub envparam_value: Option<String>,
     pub main: Section,
     pub envparam_features: Option<Vec<String>>,
+    /// builtin feature flags set to true through GIT_CONFIG_PARAMETERS (`git -c delta.navigate=true`)
+    #[serde(default)]
+    pub envparam_flags: Vec<String>,
     /// [delta "<name>"] sections
     pub custom: BTreeMap<String, Section>,
     pub cli_features: Option<Vec<String>>,
@@ -310,8 +313,14 @@ pub fn feature_list(p: &Placement, pol: Policy) -> Vec<String> {
                 }
             }
         }
-        // 4. builtin feature flags in the main section
-        for b in ordered(&p.main.flags, pol) {
+        // 4. builtin feature flags in the main section (the file and GIT_CONFIG_PARAMETERS are one section)
+        let mut mf = p.main.flags.clone();
+        for b in &p.envparam_flags {
+            if !mf.contains(b) {
+                mf.push(b.clone());
+            }
+        }
+        for b in ordered(&mf, pol) {
             add_builtin(&mut list, &b);
         }
     }
@@ -473,6 +482,9 @@ pub fn encode(p: &Placement, config_path: Option<&str>) -> Encoded {
     if let Some(f) = &p.envparam_features {
         params.push(param("delta.features", &f.join(" ")));
     }
+    for b in &p.envparam_flags {
+        params.push(param(&format!("delta.{}", b), "true"));
+    }
     if !params.is_empty() && p.custom.len() % 3 == 0 {
         // unrelated entries around them, as git produces for `git -c a=b -c delta.x=y`
         params.insert(0, "'color.ui=always'".to_string());
@@ -516,6 +528,7 @@ pub const SOURCE_KINDS: &[&str] = &[
     "custom-grandchild",
     "builtin-cli-flag",
     "builtin-main-flag",
+    "builtin-envparam-flag",
     "builtin-in-cli-features",
     "builtin-in-env-features",
     "builtin-in-main-features",
@@ -681,9 +694,16 @@ impl<'a> Builder<'a> {
                 }
                 self.p.cli_flags.push(b);
             }
+            "builtin-envparam-flag" => {
+                let b = self.some_builtin(rng);
+                if self.p.main.flags.contains(&b) || self.p.envparam_flags.contains(&b) || self.p.main.flags.len() + self.p.envparam_flags.len() >= 2 {
+                    return false;
+                }
+                self.p.envparam_flags.push(b);
+            }
             "builtin-main-flag" => {
                 let b = self.some_builtin(rng);
-                if self.p.main.flags.contains(&b) || self.p.main.flags.len() >= 2 {
+                if self.p.main.flags.contains(&b) || self.p.envparam_flags.contains(&b) || self.p.main.flags.len() + self.p.envparam_flags.len() >= 2 {
                     return false;
                 }
                 self.p.main.flags.push(b);
@@ -721,7 +741,7 @@ impl<'a> Builder<'a> {
                 // enable the builtin somewhere
                 match rng.below(3) {
                     0 if b != "color-only" && !self.p.cli_flags.contains(&b) && self.p.cli_flags.len() < 2 => self.p.cli_flags.push(b),
-                    1 if !self.p.main.flags.contains(&b) && self.p.main.flags.len() < 2 => self.p.main.flags.push(b),
+                    1 if !self.p.main.flags.contains(&b) && !self.p.envparam_flags.contains(&b) && self.p.main.flags.len() + self.p.envparam_flags.len() < 2 => self.p.main.flags.push(b),
                     _ => {
                         let which = (*rng.pick(&["cli", "env", "main"])).to_string();
                         self.insert_in_list(rng, &which, b);
@@ -773,7 +793,7 @@ impl<'a> Builder<'a> {
                         self.insert_in_list(rng, &w2, "side-by-side".to_string());
                     }
                     1 if !self.p.cli_flags.contains(&b) && self.p.cli_flags.len() < 2 => self.p.cli_flags.push(b),
-                    2 if !self.p.main.flags.contains(&b) && self.p.main.flags.len() < 2 => self.p.main.flags.push(b),
+                    2 if !self.p.main.flags.contains(&b) && !self.p.envparam_flags.contains(&b) && self.p.main.flags.len() + self.p.envparam_flags.len() < 2 => self.p.main.flags.push(b),
                     _ => {}
                 }
             }
